@@ -652,7 +652,7 @@ impl Scenario for SpendNet {
                     events.push(json!({"op": "finalise", "input": j, "order": "asc", "api": rng.chance(1, 2)}));
                 }
                 for _ in 0..rng.weighted(&[40, 45, 15]) {
-                    let what = *rng.pick(&["version", "locktime", "outpoint", "sequence", "output_value", "output_script", "add_output", "add_input", "declared_value", "key_byte", "key_byte", "sig_byte", "flag_byte", "sig_extra_byte", "sig_empty", "sig_drop", "outpoint", "sequence", "output_value", "insert_output", "insert_output", "prepend_output", "insert_input", "prepend_input"]);
+                    let what = *rng.pick(&["version", "locktime", "outpoint", "sequence", "output_value", "output_script", "add_output", "add_input", "declared_value", "key_byte", "key_byte", "sig_byte", "flag_byte", "sig_extra_byte", "sig_empty", "sig_drop", "sig_high_s", "outpoint", "sequence", "output_value", "insert_output", "insert_output", "prepend_output", "insert_input", "prepend_input"]);
                     // bias towards OTHER inputs/outputs than the signed one: that is where flags differ
                     let mi = if rng.chance(1, 2) { i } else { rng.below(n_in) };
                     events.push(json!({"op": "mutate", "what": what, "input": mi, "output": if n_out > 0 { rng.below(n_out) } else { 0 }, "r": rng.below(1 << 30), "utxo": rng.below(n_utxo)}));
@@ -705,7 +705,7 @@ impl Scenario for SpendNet {
                     }
                 }
                 4 => {
-                    let what = *rng.pick(&["version", "locktime", "outpoint", "sequence", "output_value", "output_script", "add_output", "add_input", "declared_value", "key_byte", "sig_byte", "flag_byte", "sig_extra_byte", "sig_empty", "sig_drop", "insert_output", "prepend_output", "insert_input", "prepend_input"]);
+                    let what = *rng.pick(&["version", "locktime", "outpoint", "sequence", "output_value", "output_script", "add_output", "add_input", "declared_value", "key_byte", "sig_byte", "flag_byte", "sig_extra_byte", "sig_empty", "sig_drop", "sig_high_s", "insert_output", "prepend_output", "insert_input", "prepend_input"]);
                     events.push(json!({"op": "mutate", "what": what, "input": if n_in > 0 { rng.below(n_in) } else { 0 }, "output": if n_out > 0 { rng.below(n_out) } else { 0 }, "r": rng.below(1 << 30), "utxo": rng.below(n_utxo)}));
                     if what == "add_output" || what == "insert_output" || what == "prepend_output" {
                         n_out += 1;
@@ -1210,7 +1210,7 @@ impl SpendNet {
                             m.locktime = v;
                             applied = true;
                         }
-                        "outpoint" | "sequence" | "declared_value" | "key_byte" | "sig_byte" | "flag_byte" | "sig_extra_byte" | "sig_empty" | "sig_drop" => {
+                        "outpoint" | "sequence" | "declared_value" | "key_byte" | "sig_byte" | "flag_byte" | "sig_extra_byte" | "sig_empty" | "sig_drop" | "sig_high_s" => {
                             if i >= m.ins.len() {
                                 ctx.skip();
                                 continue;
@@ -1251,7 +1251,7 @@ impl SpendNet {
                                     txin.set_satoshis(m.ins[i].declared);
                                     applied = true;
                                 }
-                                "key_byte" | "sig_byte" | "flag_byte" | "sig_extra_byte" | "sig_empty" | "sig_drop" => {
+                                "key_byte" | "sig_byte" | "flag_byte" | "sig_extra_byte" | "sig_empty" | "sig_drop" | "sig_high_s" => {
                                     let ins_sig_key = match ins[i].fin.as_ref() {
                                         Some(f) => ins[i].sigs[f.sigs[0]].key,
                                         None => {
@@ -1300,6 +1300,33 @@ impl SpendNet {
                                             let off = 4 + (r as usize / 7) % (l - 1 - 4 - 3);
                                             unl[s + off] ^= 1 << (r % 8);
                                             fin.tampered.push("sig_byte".into());
+                                        }
+                                        "sig_high_s" => {
+                                            // the signature's twin (r, n-s): a third party can compute it without any key. It is a
+                                            // change to a signature, so the spend must be rejected (the library's verifiers refuse high s)
+                                            let (s0, l) = pushes[(r as usize) % n_sigs];
+                                            if l < 10 || l > 75 || s0 == 0 || unl[s0 - 1] as usize != l {
+                                                ctx.skip();
+                                                continue;
+                                            }
+                                            let flagb = unl[s0 + l - 1];
+                                            let twin = rf::der_rs(&unl[s0..s0 + l - 1]).and_then(|(rr, ss)| {
+                                                let sc = rf::scalar_exact(&ss)?;
+                                                Some(der(&rr, &rf::scalar_bytes(&(-sc))))
+                                            });
+                                            match twin {
+                                                Some(mut t) if t.len() + 1 <= 75 => {
+                                                    t.push(flagb);
+                                                    let mut repl = vec![t.len() as u8];
+                                                    repl.extend(t);
+                                                    unl.splice(s0 - 1..s0 + l, repl);
+                                                    fin.tampered.push("sig_high_s".into());
+                                                }
+                                                _ => {
+                                                    ctx.skip();
+                                                    continue;
+                                                }
+                                            }
                                         }
                                         "sig_empty" | "sig_drop" => {
                                             // a signature is replaced by the empty item (OP_0), or is simply not there: nobody signed
